@@ -386,10 +386,20 @@ func RunBatch(harnesses map[string]func(), setup func()) error {
 			outs = append(outs, &Outcome{Crash: "no harness " + r.Func})
 			continue
 		}
-		if setup != nil {
-			setup()
+		rep := 1
+		if v := os.Getenv("VERIF_REPEAT"); v != "" {
+			if n, err := strconv.Atoi(v); err == nil && n > 0 {
+				rep = n
+			}
 		}
-		outs = append(outs, Run(r, f))
+		var o *Outcome
+		for i := 0; i < rep; i++ {
+			if setup != nil {
+				setup()
+			}
+			o = Run(r, f)
+		}
+		outs = append(outs, o)
 	}
 	ob, _ := json.Marshal(outs)
 	return os.WriteFile(os.Getenv("VERIF_REPLAY_OUT"), ob, 0o644)
